@@ -113,6 +113,17 @@ pub fn run_case(doc: &[u8], lit_start: usize, kind: &str) -> String {
                 }
             });
         }
+        // the literal between two byte strings that hold invalid UTF-8 (the reader keeps a position of the next invalid byte of
+        // the input: a valid literal must not be judged by what stands before and behind it)
+        ep!("tuple3", {
+            let mut t3 = b"[\"\xff\",".to_vec();
+            t3.extend_from_slice(&doc[..lit_end]);
+            t3.extend_from_slice(b",\"\xfe\"]");
+            match sonic_rs::from_slice::<(serde_bytes::ByteBuf, String, serde_bytes::ByteBuf)>(&t3) {
+                Ok((_, s, _)) => s_hex(Some(&s)),
+                Err(_) => "R".into(),
+            }
+        });
         ep!("getkey", {
             // the lazy `get` compares the decoded key (parse_string_raw): look the key up by the
             // reference decoding of serde_json
